@@ -111,9 +111,9 @@ class Lab:
             idx = imd5(ibuild(self.ws, self.fs), state=self.state, name=alg)
             isave(idx, odb=odb)
             self.saved_idx[s] = idx
-        elif how == "resave":
-            # the index saved earlier, with the hashes it recorded then, hashed and saved again
-            idx = imd5(self.saved_idx[s], state=self.state, name=alg)
+        elif how.startswith("resave:"):
+            # the index saved earlier into store how[7:], with the hashes it recorded then, hashed and saved again - into s
+            idx = imd5(self.saved_idx[how[7:]], state=self.state, name=alg)
             isave(idx, odb=odb)
         else:
             raise AssertionError(how)
@@ -178,7 +178,7 @@ def run_trace(case):
             elif a["op"] == "Resave":
                 if a["s"] not in lab.saved_idx:
                     continue
-                lab.add(a["s"], "resave")
+                lab.add(a.get("t", a["s"]), "resave:" + a["s"])
             events.append({"act": a, **lab.observe()})
         return {"init": case["init"], "events": events}
     finally:
@@ -242,8 +242,9 @@ def directed_cases():
     for s_ in ("cache", "legacy"):
         for p_, c_ in (("p", "lf2"), ("q", "crlf"), ("p", "lfcr")):
             for how in ("rewrite", "keep-mtime"):
-                ops = [{"op": "Add", "s": s_, "how": "save"}, {"op": "Edit", "p": p_, "c": c_, "how": how}, {"op": "Resave", "s": s_},
-                       {"op": "Edit", "p": p_, "c": "bin", "how": how}, {"op": "Resave", "s": s_}]
+                t_ = {"cache": "plain", "legacy": "legacy"}[s_]      # (plain is the other md5 store)
+                ops = [{"op": "Add", "s": s_, "how": "save"}, {"op": "Edit", "p": p_, "c": c_, "how": how}, {"op": "Resave", "s": s_, "t": t_},
+                       {"op": "Edit", "p": p_, "c": "bin", "how": how}, {"op": "Resave", "s": s_, "t": s_}]
                 cases.append({"id": 5000 + n, "init": {"p": "lf", "q": "bin"}, "ops": ops})
                 n += 1
     return cases
